@@ -1,16 +1,47 @@
-"""Helpers of the C19 rule module that the engine does not offer (see rules/c19.py):
+"""C19 - renderings show every task and dependency exactly once with its real dates.   (DESIGN.md section 5, C19)
 
-* `parts(e)`        string-building expression -> flat list of ('lit', text) / ('val', expr): f-strings, `.format`,
-                    `%`, `+` concatenation and `sep.join([..])` all normalise to the same list;
-* `sanitiser(e)`    `x.name.replace(a, b).replace(c, d)` -> (x.name, [(a, b), (c, d)]);
-* `deep(..)`        Expander.expand + inlining of same-class helpers whose body is straight-line code ending in
-                    the only `return` (the Expander inlines one-statement helpers only);
-* `paths(..)`       enumeration of the acyclic paths of a statement list with the events (designated statements /
-                    loops) met on each path, the branch conditions taken and the way the path leaves the list
-                    (emission counting, DESIGN 3.7);
-* `Acc`             the `res = ""; res += ..; return res` string accumulator of a renderer function;
-* `loop_chains(..)` statement -> enclosing loops (structural);
-* a tiny propositional evaluator over branch conditions (`formula`, `holds`).
+Decided structurally on the three renderers (viz/mermaid/gantt.py, viz/mermaid/network.py, viz/dhtmlx/gantt.py) and the
+three templates (read as text).  Six obligations:
+
+* templates (R10)  per renderer: the `$name` / `${name}` placeholders of the template read by to_html (`$$` is an escape, any
+                   other `$` makes substitute raise) == the keyword names of the single Template(..).substitute call, the result
+                   is returned, and one keyword is computed by the analysed body function (__src / __data).
+* once (R13)       emission counting over all control-flow paths.  Mermaid gantt: every path through __src runs exactly one
+                   "complete" task-line loop: either `for t in self.wbs.tasks` with exactly one task line per iteration, or
+                   `for k, v in M.items()` with exactly one `section k` header before exactly one `for t in v` loop with one line
+                   per iteration, where M is proved to be a partition of self.wbs.tasks (created empty once outside loops, exactly
+                   one setdefault(section-of-task, []).append(task) per task, before the emission, no other use).  Network: one
+                   loop over self.wbs.tasks on every path; per task (truth table over the branch conditions) exactly one Start edge
+                   iff `t.predecessors` is empty, otherwise exactly one loop over t.predecessors with one edge p.id --> t.id per
+                   element.  DHTMLX: exactly one data.append per task of `self.wbs.roots x (all_children + [root])` (or of
+                   self.wbs.tasks), exactly one links.append per predecessor with source=p.id, target=t.id, type "0", and a link id
+                   that is unique: counter initialised once outside all loops, stepped exactly once per link (or len(links)+k).
+* formats (R10)    the task line is `name : state id, start, end\n` of one task; strftime formats are constants carrying day,
+                   month, year, hour (24h) and minute; the `dateFormat` directive is emitted exactly once and equals the strftime
+                   format under DD/MM/YYYY/HH/mm <-> %d/%m/%Y/%H/%M; DHTMLX dates equal dhtmlxGantt's date_format (default
+                   %d-%m-%Y %H:%i unless the template configures one); the state slot yields `milestone,` iff task.milestone: every
+                   other state is returned only after task.milestone was excluded, the flag depends on no other test.
+* json (R8)        __data returns json.dumps({'data': <list>, 'links': <list>}) (no manual text); entry id = t.id, text = t.name
+                   untouched, start_date/end_date = t.start/t.end; parent = t.parent.id if t.parent in self.wbs.tasks else 0;
+                   progress is 0, 1 or 1 - max(e - s, 0)/e (equivalents accepted) under e > 0 and s is not None, with the
+                   Task.spent setter rejecting negatives; custom attributes copied into the entry cannot overwrite those keys.
+* escape (R11)     each _repr_html_ returns an <iframe> whose quoted srcdoc value is html.escape(self.to_html()) (quote=True).
+* sinks (R5)       the name in the Gantt line passes .replace(':', x); the json.dumps result passes a replace that neutralises
+                   `</` (replace of '</', '<' or '/') and its placeholder is a bare expression inside <script>; every name label
+                   of a network edge passes the same sanitiser and that sanitiser removes `"`.
+
+Spec sides come from the property text / the external formats (Mermaid `name : flags, id, start, end`, dayjs tokens, dhtmlxGantt's
+data model id/text/start_date/end_date/parent/progress, source/target/type, parent 0 = root), not from today's code.
+
+Not decided: Mermaid's grammar (`}}`, `#`, `;`, line breaks in names), CSS/style attribute text, the columns JSON, title /
+tickInterval text, whether WBS.tasks and roots+all_children really enumerate each task once (C01/C05), numeric values.  A link counter
+stepped *after* its use is accepted (ids stay unique).  Idioms outside the recognised ones (lines collected in a list and joined,
+an `emitted` flag instead of a predecessor test, helpers with loops that build part of the text) end as UNDECIDED, never as a pass.
+
+Engine limitations worked around here (helpers below, nothing under sa/ was changed): string-building normalisation (`parts`),
+inlining of multi-statement single-return helpers (`deep`), path enumeration with event counts (`paths`, DESIGN 3.7 is not in
+sa/), structural loop nesting (`loop_chains`), accumulator recognition (`Acc`), a propositional evaluator for branch conditions,
+and pattern matching of calls that carry keywords (sa.pat's `$*args` does not cover keywords).
 """
 from __future__ import annotations
 
@@ -336,6 +367,8 @@ def paths(stmts: List[ast.stmt], atoms: Dict[int, str], limit: int = 400) -> Lis
         if isinstance(st, ast.If):
             if not has(st) and not has_exit(st):
                 return [([], [], None)]
+            if isinstance(st.test, ast.Constant):
+                return run(st.body if st.test.value else st.orelse)
             a, b = run(st.body), run(st.orelse)
             return [([(st.test, True)] + c, e, x) for c, e, x in a] + [([(st.test, False)] + c, e, x) for c, e, x in b]
         if isinstance(st, (ast.For, ast.AsyncFor, ast.While)):
@@ -622,7 +655,8 @@ def substitute_call(ctx, R):
         raise Und(f, f.node, 'to_html', f"{len(calls)} Template.substitute calls in to_html (expected one)")
     c = calls[0]
     recv = deep(ctx, f, c.func.value, flow_of(f).node_of_expr(c))
-    m = match("Template($t)", recv) or match("string.Template($t)", recv)
+    m = (match("Template($t)", recv) if f.module.imports.get('Template') == 'string.Template' else None) or \
+        (match("string.Template($t)", recv) if f.module.imports.get('string') == 'string' else None)
     if not m:
         raise Und(f, c, c.func.value, "substitute() receiver is not Template(<text>)")
     kws = {}
@@ -905,7 +939,8 @@ def check_partition(ctx, o, G: Gantt, M: str, reader: ast.For) -> bool:
                 consumed |= {id(n) for n in ast.walk(st) if isinstance(n, ast.Name) and n.id == M}
         elif isinstance(st, ast.For):
             it = strip_seq(st.iter)
-            if match(f"{M}.items()", it) or match(f"{M}.values()", it) or match(f"{M}.keys()", it) or match(M, it):
+            if match(f"{M}.items()", it) or match(f"{M}.values()", it) or match(f"{M}.keys()", it) or match(M, it) or \
+                    match(f"{M}[$k]", it):
                 consumed |= {id(n) for n in ast.walk(st.iter) if isinstance(n, ast.Name) and n.id == M}
     for n in walk_no_nested(f.node, include_lambdas=True):
         if isinstance(n, ast.Name) and n.id == M and id(n) not in consumed:
@@ -1004,12 +1039,17 @@ def gantt_once(ctx, o):
         # sectioned: for k, v in M.items(): <section k> ; for task in v: <line>
         P = C[-1] if C else None
         raw = strip_seq(L.iter)
-        if P is not None and isinstance(P, ast.For) and isinstance(raw, ast.Name):
+        if P is not None and isinstance(P, ast.For):
             pit = strip_seq(P.iter)
             m = match("$m.items()", pit)
-            if m and isinstance(m['m'], ast.Name) and isinstance(P.target, ast.Tuple) and len(P.target.elts) == 2 and \
-                    all(isinstance(x, ast.Name) for x in P.target.elts) and P.target.elts[1].id == raw.id:
+            kvar = M = None
+            if isinstance(raw, ast.Name) and m and isinstance(m['m'], ast.Name) and isinstance(P.target, ast.Tuple) and \
+                    len(P.target.elts) == 2 and all(isinstance(x, ast.Name) for x in P.target.elts) and P.target.elts[1].id == raw.id:
                 kvar, M = P.target.elts[0].id, m['m'].id
+            elif isinstance(P.target, ast.Name) and isinstance(raw, ast.Subscript) and isinstance(raw.value, ast.Name) and \
+                    match(P.target.id, raw.slice) and (match(raw.value.id, pit) or match(f"{raw.value.id}.keys()", pit)):
+                kvar, M = P.target.id, raw.value.id
+            if M is not None:
                 atoms = {id(L): 'tasks'}
                 heads = []
                 for e in G.em:
@@ -1883,6 +1923,7 @@ def check_dhtmlx(ctx, O):
             oj.refute(f, st, f"entry: no {miss[0]}", f"the task entry has no `{miss[0]}` key (dhtmlxGantt reads {', '.join(need)})")
             continue
         ex = {k: deep(ctx, f, it[k], at) for k in need if k != 'progress'}
+        ex['parent'] = merge_defs(ctx, f, ex['parent'], at)
         if not match(f"{t}.id", ex['id']):
             oj.refute(f, st, f"entry id: {src(ex['id'])[:40]}", f"entry id is `{src(ex['id'])[:50]}`, expected {t}.id")
             continue
@@ -1923,8 +1964,59 @@ def check_dhtmlx(ctx, O):
                     ofm.site(f, st, f"{key}: strftime({fm!r}) == dhtmlx date_format")
         if okd:
             oj.site(f, st, f"start_date/end_date = {t}.start/{t}.end")
+        # later stores into the entry must not overwrite the keys above (custom attributes are copied into it)
+        if isinstance(arg, ast.Name):
+            ev = arg.id
+            for n in [x for b in L.body for x in walk_no_nested(b)]:
+                if isinstance(n, ast.Call) and isinstance(n.func, ast.Attribute) and isinstance(n.func.value, ast.Name) and \
+                        n.func.value.id == ev and n.func.attr in ('update', 'setdefault', 'pop', 'clear', '__setitem__'):
+                    if n.func.attr != 'setdefault':
+                        oj.undecided(f, n, n, f"the entry is modified by `{src(n)[:60]}`")
+                    continue
+                if not isinstance(n, (ast.Assign, ast.AugAssign)):
+                    continue
+                for tg in (n.targets if isinstance(n, ast.Assign) else [n.target]):
+                    if not (isinstance(tg, ast.Subscript) and isinstance(tg.value, ast.Name) and tg.value.id == ev):
+                        continue
+                    kc = const_str(tg.slice)
+                    if kc is not None:
+                        if kc in need:
+                            oj.refute(f, n, n, f"`{src(n)[:60]}` overwrites the entry's `{kc}` after it was computed")
+                        continue
+                    ks = src(tg.slice)
+                    conds = facts.node_conditions(prog, f, n, ctx.typer, expand=False)
+                    if any((match(f"{ks} not in {ev}", a) and pol) or (match(f"{ks} in {ev}", a) and not pol) for a, pol in conds):
+                        oj.site(f, n, f"custom attributes are copied only under `{ks} not in {ev}`: id/text/dates/parent/progress are kept")
+                    else:
+                        oj.refute(f, n, n, f"`{src(n)[:60]}` is not guarded by `{ks} not in {ev}`: a task attribute named id, text, "
+                                           f"parent, progress, start_date or end_date replaces the computed entry field")
         check_parent(ctx, oj, f, st, ex['parent'], t, w)
         check_progress(ctx, oj, f, st, it['progress'], at, t)
+
+
+def merge_defs(ctx, f: Func, e: ast.AST, at) -> ast.AST:
+    """`if c: x = A / else: x = B` and `x = B; if c: x = A` read through the name x as the term `A if c else B`"""
+    if not isinstance(e, ast.Name) or at is None:
+        return e
+    fl, cfg = flow_of(f), cfg_of(f)
+    ds = fl.reaching(e.id, at)
+    if len(ds) != 2 or any(d.kind != 'assign' or d.value is None for d in ds):
+        return e
+    for st in walk_no_nested(f.node):
+        if not isinstance(st, ast.If):
+            continue
+        for a, b in (ds, ds[::-1]):
+            in_body = any(x is a.stmt for x in st.body)
+            if in_body and any(x is b.stmt for x in st.orelse):
+                pass
+            elif in_body and not st.orelse and cfg.dominates(b.node, cfg.node_of(st)) and not any(
+                    x is b.stmt for y in st.body for x in ast.walk(y)):
+                pass
+            else:
+                continue
+            return ast.IfExp(test=deep(ctx, f, st.test, cfg.node_containing(st.test)),
+                             body=deep(ctx, f, a.value, a.node), orelse=deep(ctx, f, b.value, b.node))
+    return e
 
 
 def check_parent(ctx, o, f: Func, st, pv: ast.AST, t: str, w: str):
@@ -2106,7 +2198,7 @@ def check(ctx):
                                             "under DD/MM/YYYY/HH/mm <-> %d/%m/%Y/%H/%M; DHTMLX dates match its date_format; task line is "
                                             "`name : flags id, start, end`; `milestone,` flag iff task.milestone, tested first", floor=7),
         'json': ctx.ob('json', 'R8', "DHTMLX payload = json.dumps of python containers; entry id/text/start/end of the task itself; "
-                                     "parent = parent.id if parent in self.wbs.tasks else 0; progress within 0..1", floor=8),
+                                     "parent = parent.id if parent in self.wbs.tasks else 0; progress within 0..1", floor=9),
         'escape': ctx.ob('escape', 'R11', "the three _repr_html_ return the iframe with srcdoc=\"escape(self.to_html())\"", floor=3),
         'sinks': ctx.ob('sinks', 'R5', "a task name reaching the gantt line loses ':'; `</` is neutralised after json.dumps inside "
                                        "<script>; all name labels of network edges pass the same quote-removing sanitiser", floor=7),
